@@ -3,7 +3,7 @@ import CMacVerif.Arith
 /-
 Model of `Octree` / `OctreeNode` (src/Octree.hpp, src/OctreeNode.hpp): construction
 (`add_position` 93-147, root = position 0), `set_variable` with `max` (228-243) and the searches
-`get_ngbs` (128-162) / `get_ngbs_sphere` (177-211) / `get_closest_ngb` (279-315), with the
+`get_ngbs` / `get_ngbs_sphere` / `get_closest_ngb` (walks start at `get_first_node`), with the
 distances of `Box` (`get_distance` 166-179, `periodic_distance` 114-160).
 
 The child/sibling pointers set by `collapse` make the search loop a depth-first traversal of the
@@ -129,10 +129,11 @@ def search (pd : Nat → α) (bd : Box3 α → α) (h : Nat → α) (radius : Op
     if bd b > lim then []
     else (List.finRange 8).foldl (fun acc i => acc ++ search pd bd h radius (kids i)) []
 
-/-- the searches start with the children of the root (`_root->get_child()`) -/
+/-- the searches start with the first child of the root; a one-position tree has a leaf as root
+and the walk starts (and ends) with the root itself (`get_first_node`) -/
 def searchRoot (pd : Nat → α) (bd : Box3 α → α) (h : Nat → α) (radius : Option α) : OT α → List Nat
   | .node _ _ kids => (List.finRange 8).foldl (fun acc i => acc ++ search pd bd h radius (kids i)) []
-  | _ => []
+  | t => search pd bd h radius t
 
 /-- `get_closest_ngb`: depth first with the running minimum `(rmin, imin)` -/
 def closest (pd : Nat → α) (bd : Box3 α → α) : OT α → α × Nat → α × Nat
@@ -144,10 +145,12 @@ def closest (pd : Nat → α) (bd : Box3 α → α) : OT α → α × Nat → α
 
 def closestRoot (pd : Nat → α) (bd : Box3 α → α) (big : α) : OT α → Nat
   | .node _ _ kids => ((List.finRange 8).foldl (fun acc i => closest pd bd (kids i) acc) (big, 0)).2
-  | _ => 0
+  | t => (closest pd bd t (big, 0)).2
 
-/-- the constructor: root = position 0, then `add_position` for 1 … n-1, then the variables -/
+/-- the constructor: root = position 0, then `add_position` for 1 … n-1, then the variables
+(no positions: the walks of an empty tree start at `nullptr`) -/
 def build (pos : Nat → V3 α) (n : Nat) (box : Box3 α) (h : Nat → α) : OT α :=
+  if n = 0 then .empty else
   let t := (List.range (n - 1)).foldl (fun t i => addPos pos (i + 1) 64 t box) (.leaf 0)
   (setVar h t).1
 end
